@@ -24,6 +24,19 @@ LETTERS = "abcdefghkmnpqrstuvwxyz"
 # spec -> live netlist
 # ----------------------------------------------------------------------------------------------
 def build(spec):
+    """Build under the naming policy named by spec["policy"] (DEFAULT when absent); the process-wide
+    default policy is restored afterwards (elements keep the policy they were created under)."""
+    from spydrnet.plugins import namespace_manager as NM
+    old = NM.default
+    if spec.get("policy"):
+        NM.default = spec["policy"]
+    try:
+        return _build(spec)
+    finally:
+        NM.default = old
+
+
+def _build(spec):
     nl = sdn.Netlist(name="nl")
     libs = [nl.create_library(name=n) for n in spec["libs"]]
     defs = []
@@ -197,6 +210,34 @@ def _wire_up(rng, D, defs, namer, p_unconnected, max_width, named_cables, data, 
         nm = namer.fresh("N")
         D["cables"].append({"name": nm, "scalar": True, "lower": 0, "downto": True, "wires": [[] for _ in range(rng.randint(0, 2))],
                             "data": {}})
+
+
+def slashify(rng, spec):
+    """Put '/' into instance and cable names, including the patterns whose slash-joined path names
+    coincide: a sibling named like the path of a nested instance / cable."""
+    defs = spec["defs"]
+    for D in defs:
+        for K in D["children"]:
+            sub = defs[K["ref"]]
+            if K["name"] and rng.random() < 0.5:
+                cand = [k["name"] for k in sub["children"] if k["name"]] + [c["name"] for c in sub["cables"] if c["name"]]
+                if cand and rng.random() < 0.6:
+                    nm = K["name"] + "/" + rng.choice(cand)     # looks like a path into the sibling K
+                    if rng.random() < 0.5 and all(k["name"] != nm for k in D["children"]):
+                        D["children"].append({"name": nm, "ref": rng.choice([i for i, X in enumerate(defs) if not X["children"] and not X["cables"]] or [K["ref"]]), "data": {}})
+                    elif all(c["name"] != nm for c in D["cables"]):
+                        D["cables"].append({"name": nm, "scalar": True, "lower": 0, "downto": True, "wires": [[]], "data": {}})
+        for K in D["children"]:
+            if K["name"] and "/" not in K["name"] and rng.random() < 0.15:
+                nm = K["name"] + "/" + rng.choice(LETTERS)
+                if all(k["name"] != nm for k in D["children"]):
+                    K["name"] = nm
+        for C in D["cables"]:
+            if C["name"] and "/" not in C["name"] and rng.random() < 0.15:
+                nm = C["name"] + "/" + rng.choice(LETTERS)
+                if all(c["name"] != nm for c in D["cables"]):
+                    C["name"] = nm
+    return spec
 
 
 def gen_spec(rng, mode, max_depth=4, max_children=4, max_ports=4, max_width=3, named_insts=True, data=True,
